@@ -12,15 +12,17 @@ MC_THOROUGH = ["MC_any3", "MC_any4", "MC_fifo5"]
 
 # implementation-shaped mechanism specifications, each model-checked to refine the abstract spec
 MECH = {
-    "C01": ["mechanisms/Links"], "C02": ["mechanisms/Links", "mechanisms/Walk"], "C03": ["mechanisms/Links"],
-    "C04": ["mechanisms/Links"], "C05": ["mechanisms/Links"], "C12": ["mechanisms/Links"],
-    "C06": ["mechanisms/Stamp", "mechanisms/Stamp_real"], "C07": ["mechanisms/FreeList", "mechanisms/Stamp"],
-    "C08": ["mechanisms/FreeList"], "C09": ["mechanisms/Walk"], "C10": ["mechanisms/DEIter"],
+    "C01": ["mechanisms/Links", "mechanisms/ArenaImpl"], "C02": ["mechanisms/Links", "mechanisms/Walk", "mechanisms/ArenaImpl"],
+    "C03": ["mechanisms/Links", "mechanisms/ArenaImpl"], "C04": ["mechanisms/Links", "mechanisms/ArenaImpl"],
+    "C05": ["mechanisms/Links", "mechanisms/ArenaImpl"], "C12": ["mechanisms/Links", "mechanisms/ArenaImpl"],
+    "C06": ["mechanisms/Stamp", "mechanisms/Stamp_real", "mechanisms/ArenaImpl"], "C07": ["mechanisms/FreeList", "mechanisms/Stamp", "mechanisms/ArenaImpl"],
+    "C08": ["mechanisms/FreeList", "mechanisms/ArenaImpl"], "C09": ["mechanisms/Walk"], "C10": ["mechanisms/DEIter"],
     "C14": ["mechanisms/IndentWriter"],
 }
-MECH_THOROUGH = {"mechanisms/Links": "mechanisms/Links5", "mechanisms/Readers": "mechanisms/Readers3"}
+MECH_THOROUGH = {"mechanisms/Links": "mechanisms/Links5", "mechanisms/Readers": "mechanisms/Readers3", "mechanisms/ArenaImpl": "mechanisms/ArenaImpl4"}
 MECH_WHAT = {
     "mechanisms/Links": "Links.tla: connect_neighbors / detach_from_siblings / rewrite_parents / transplant / insert_with_neighbors composed as the public calls compose them; TLC checks each call refines the Forest.tla operator, fails exactly when Reasons says so and leaves WellFormed, Acyclic, Bare links",
+    "mechanisms/ArenaImpl": "ArenaImpl.tla: the whole arena as implemented (links as NodeIds with stamps, generation arithmetic with a small MAXSTAMP, intrusive free list, every mutator transcribed) refines IndexTree.tla: for every reachable implementation state and every valid call, result class and abstracted post-state equal Step()",
     "mechanisms/Walk": "Walk.tla: the nine iterator cursor machines over every ordered forest up to MaxNodes; output equals the declarative sequence, no element twice, termination (liveness under weak fairness), next_traverse/prev_traverse inverse of each other",
     "mechanisms/Stamp": "Stamp.tla: i16 generation arithmetic with a small MAXSTAMP and several slots, every interleaving of new_node/remove: no id reissued, is_removed law, retirement only at exhaustion",
     "mechanisms/Stamp_real": "Stamp.tla with the real MAXSTAMP = 32767 for one slot (whole counter range and beyond its end)",
